@@ -365,3 +365,35 @@ pub fn run_surface_batch(id: &str, cases: Vec<SurfCase>, lterms: Vec<LtermCase>,
     }
     merged
 }
+
+/// Replay of one surface case (`surface:<k>`): rebuild only that program (and its alpha twin).
+pub fn replay_case(id: &str, mut cases: Vec<SurfCase>, index: usize, seed: u64, api_compare: bool) -> CaseOut {
+    let mut out = CaseOut::default();
+    if index >= cases.len() {
+        out.inconclusive.push(format!("no surface case {}", index));
+        return out;
+    }
+    // keep the case and, if it has one, its twin (re-indexed)
+    let twin = cases[index].twin_of;
+    let mut subset: Vec<SurfCase> = vec![];
+    if let Some(t) = twin {
+        let tc = cases.swap_remove(t.max(index));
+        let other = cases.swap_remove(t.min(index));
+        let (first, mut second) = if t < index { (other, tc) } else { (tc, other) };
+        second.twin_of = if second.twin_of.is_some() { Some(0) } else { None };
+        let mut first = first;
+        first.twin_of = if first.twin_of.is_some() { Some(1) } else { None };
+        subset.push(first);
+        subset.push(second);
+    } else {
+        subset.push(cases.swap_remove(index));
+    }
+    let merged = run_surface_batch(&format!("{}R", id), subset, vec![], seed, api_compare);
+    for (_, v) in merged.violations {
+        out.violations.push(v);
+    }
+    for (k, n) in merged.counters {
+        out.count(&k, n);
+    }
+    out
+}
